@@ -3,25 +3,31 @@
   Property theorems only (model: Gts/Model/Repair.lean; guards: Gts/Spec/RepairGuard.lean;
   helper lemmas: Gts/Lemmas/Repair*.lean).
 
-  The property is FALSE on the current tree in several independent ways; every clause below
-  comes as the refuted full statement (`…_full_refuted`, a concrete witness that is replayed
-  on the real code by the harness / `known_findings.json`) plus the strongest statement that
-  was proved (`…_partial`, with a decidable guard naming the known finding it excludes):
+  Repaired in /repo (known_findings.json F18, F19, F20; the model follows the repaired code):
+  * F18/F19 (was K12A)  `indices[:len(locs)]` panicked, or re-sliced into spare capacity and
+          duplicated features, when a flattened `Joined` member gave more locations than the
+          class has members.  Now: `no_panic` for every table.
+  * F20 (was K12C)  the grouping text `"%s:%v"` identified different qualifier lists.  Now
+          `"%q:%q"`: `classKey_inj`.
 
-  * K12A  a `Joined` member is flattened by `Push`, so a class can yield more locations than it
-          has members: `indices[:len(locs)]` panics, or — inside the spare capacity of the
-          slice — silently appends index `0` and the compaction duplicates features.
-          Guard: `Table.noTopJoin` (general form: `Table.noStale`).
+  Still FALSE on the current tree; every such clause comes as the refuted full statement
+  (`…_full_refuted`, a concrete witness that is replayed on the real code by the harness /
+  `known_findings.json`) plus the strongest statement that was proved (`…_partial`, with a
+  decidable guard naming the known finding it excludes):
+
+  * K12G  a `Joined` member of a class that is reduced is flattened by `Push`: its parts are
+          written back as separate features, unsorted, and `Repair` is not idempotent; a cut
+          joined feature is not re-assembled.
   * K12B  two `Complemented` members of a class are always fused (abutting or not).
-  * K12C  the grouping text `"%s:%v"` identifies different qualifier lists.  Guard `Table.keysInj`.
   * K12D  `Push`'s site rules (`Between`/`Point` absorbed or de-duplicated) are applied across
           different features.
   * K2    (`Ranged` then `Point` at its `End`) changes the covered residues.  Guard `Table.k2`.
   * K12E/K12F  restoration: only forward ranges are re-assembled; the table order is not restored.
-  `Table.plain` (every feature a forward range, or alone in its class and not a `Joined`)
-  excludes K12A, K12B, K12D, K12E at once.
+  `Table.plain` (every feature a forward range, or alone in its class) excludes K12B, K12D,
+  K12E, K12G at once.
 -/
 import Gts.Lemmas.RepairRoundTrip
+import Gts.Lemmas.RepairKey
 namespace Gts.C12
 open Gts Loc
 
@@ -42,37 +48,43 @@ example : repairOrd [gene (ranged 0 2 false true), ⟨"CDS", point 1, []⟩, gen
 
 /-! ### (a) never panics -/
 
-/-- FULL STATEMENT (false today, K12A): `∀ t, repair t ≠ .panic`.  A single feature with a
-two-part join (the project's own phiX174 sample has such features) panics:
-`len(locs) = 2 > cap(indices) = 1`. -/
-theorem no_panic_full_refuted : ¬ (∀ t : Table, repair t ≠ .panic) := by
-  intro h
-  exact h [gene (joined [ranged 0 3 false false, ranged 5 8 false false])] (by rfl)
+/-- **`Repair` never panics**, on any table: the only checked operations left are the index
+expressions of the in-place compaction, and `keep` is a duplicate-free list of table indices.
+The result is the explicit table `specRepair t` — except that a class of two or more members
+all of which are empty `Joined{}` literals gets the `nil` Location of the empty list
+(`.nilLoc`; such literals cannot be parsed or built with `Join`). -/
+theorem no_panic (t : Table) : repair t ≠ .panic := by
+  rw [repair_eq]
+  split <;> simp
 
-/-- … and inside the spare capacity nothing panics but features are silently overwritten:
-three members with four locations re-slice `indices[:4]` into `[0, 1, 2, 0]`; the in-place
-compaction then copies feature 0 over the whole table. -/
-theorem stale_capacity_duplicates :
+theorem repair_total (t : Table) :
+    repair t = if (Table.groups t).any (classNil t) then .nilLoc else .ok (specRepair t) :=
+  repair_eq t
+
+/-- … and a table is returned whenever no `nil` Location is written (`Table.noNil`; true for
+every table without empty `Joined{}` literals, in particular every plain table). -/
+theorem no_panic_ok (t : Table) (h : Table.noNil t = true) : repair t = .ok (specRepair t) :=
+  repair_eq_spec t ((noNil_iff t).mp h)
+
+/-- the witness of the former finding K12A (fixed, F18) is now an unchanged table -/
+example : repair [gene (joined [ranged 0 3 false false, ranged 5 8 false false])] =
+    .ok [gene (joined [ranged 0 3 false false, ranged 5 8 false false])] := by rfl
+
+/-- the witness of the former silent duplication (fixed, F19): the gene class (4 locations for
+3 members) is kept as it is, the two CDS fragments are fused -/
+example :
     repair [gene (joined [ranged 0 1 false false, ranged 2 3 false false]), gene (ranged 4 5 false false),
             gene (ranged 6 7 false false), ⟨"CDS", ranged 10 12 false true, []⟩, ⟨"CDS", ranged 12 14 true false, []⟩] =
-      .ok (List.replicate 5 (gene (joined [ranged 0 1 false false, ranged 2 3 false false]))) := by rfl
+      .ok [gene (joined [ranged 0 1 false false, ranged 2 3 false false]), gene (ranged 4 5 false false),
+            gene (ranged 6 7 false false), ⟨"CDS", ranged 10 14 false false, []⟩] := by rfl
 
-/-- **No panic** when no class overflows (`Table.noStale`: in every class the pushed list is
-non-empty and not longer than the class); the result is then the explicit table `specRepair t`. -/
-theorem no_panic_noStale (t : Table) (h : Table.noStale t = true) : repair t = .ok (specRepair t) :=
-  repair_eq_spec t h
-
-/-- **No panic** (and no `nil` location) on every table without a `Joined` feature location. -/
-theorem no_panic_partial (t : Table) (h : Table.noTopJoin t = true) : ∃ t', repair t = .ok t' :=
-  ⟨_, repair_eq_spec t (noStale_of_noTopJoin t h)⟩
-
-/-- non-vacuity: every other location kind, several features per class -/
-example : Table.noTopJoin [gene (compl (ranged 0 3 false true)), gene (ordered [point 1, point 5]),
-    gene (between 3), gene (ambiguous 2 6), gene (ranged 3 6 true false)] = true := by decide
+/-- non-vacuity of `noNil`: every location kind, several features per class -/
+example : Table.noNil [gene (compl (ranged 0 3 false true)), gene (ordered [point 1, point 5]),
+    gene (between 3), gene (ambiguous 2 6), gene (joined [ranged 3 6 true false, point 9])] = true := by decide
 
 /-! ### (b) idempotent -/
 
-/-- FULL STATEMENT (false today, K12A): `repair t = .ok t' → repair t' = .ok t'`.  The flattened
+/-- FULL STATEMENT (false today, K12G): `repair t = .ok t' → repair t' = .ok t'`.  The flattened
 parts of a join are written back unsorted (`6..15`, then the site `6^7`); the second `Repair`
 sorts the site in front of the range and lets `Push` absorb it. -/
 theorem idempotent_full_refuted :
@@ -88,9 +100,7 @@ theorem idempotent_full_refuted :
 /-- **Idempotent** on plain tables of well-formed locations. -/
 theorem idempotent_partial (t t' : Table) (hp : Table.plain t = true) (hw : Table.wfT t = true)
     (h : repair t = .ok t') : repair t' = .ok t' := by
-  have hns := noStale_of_noTopJoin t (noTopJoin_of_plain t hp)
-  rw [repair_eq_spec t hns] at h
-  cases h
+  obtain ⟨_, rfl⟩ := repair_ok t t' h
   exact repair_idem t hp hw
 
 /-- non-vacuity: a plain table in which something is fused -/
@@ -120,17 +130,17 @@ theorem unchanged_site_refuted :
   revert h2
   decide
 
-/-- **Unchanged**: whenever no class is reduced by the push loop, `Repair` returns its argument
-(all location kinds; this is the exact condition). -/
+/-- **Unchanged**: whenever no class is reduced by the push loop (`len(locs) ≥ len(indices)`),
+`Repair` returns its argument (all location kinds, joins included). -/
 theorem unchanged_of_no_reduction (t : Table)
-    (h : ∀ idx ∈ Table.groups t, (classP t idx).length = idx.length) : repair t = .ok t :=
-  repair_unchanged t h
+    (h : ∀ idx ∈ Table.groups t, idx.length ≤ classN t idx) : repair t = .ok t :=
+  repair_unchanged' t h
 
 /-- **Unchanged**: a plain table in which no two features of a class abut with a 3'-partial end
 meeting a 5'-partial start (any abutting ends in a `source` class) is returned as it is. -/
 theorem unchanged_partial (t : Table) (hp : Table.plain t = true)
     (hm : Table.noMergeablePair t = true) : repair t = .ok t :=
-  repair_unchanged t (classP_length_of_noMergeablePair t hp hm)
+  repair_unchanged' t (not_reduced_of_noMergeablePair t hp hm)
 
 /-- non-vacuity: abutting but complete, partial but apart, nested, duplicates -/
 example : Table.plain [gene (ranged 0 3 false false), gene (ranged 3 6 false false), gene (ranged 6 8 false true),
@@ -149,10 +159,10 @@ theorem merge_chains_full_refuted :
         ∃ gs, gs.flatten.Perm (Table.locsOf t k) ∧ ChainsOf (Table.forceOf t k) gs (Table.locsOf t' k)) := by
   intro h
   obtain ⟨gs, h1, h2⟩ := h [gene (compl (ranged 0 3 false false)), gene (compl (ranged 5 8 false false))]
-    [gene (compl (joined [ranged 5 8 false false, ranged 0 3 false false]))] "gene:[]" (by rfl)
-  have e0 : Table.locsOf [gene (compl (ranged 0 3 false false)), gene (compl (ranged 5 8 false false))] "gene:[]" =
+    [gene (compl (joined [ranged 5 8 false false, ranged 0 3 false false]))] "\"gene\":[]" (by rfl)
+  have e0 : Table.locsOf [gene (compl (ranged 0 3 false false)), gene (compl (ranged 5 8 false false))] "\"gene\":[]" =
       [compl (ranged 0 3 false false), compl (ranged 5 8 false false)] := by rfl
-  have e1 : Table.locsOf [gene (compl (joined [ranged 5 8 false false, ranged 0 3 false false]))] "gene:[]" =
+  have e1 : Table.locsOf [gene (compl (joined [ranged 5 8 false false, ranged 0 3 false false]))] "\"gene\":[]" =
       [compl (joined [ranged 5 8 false false, ranged 0 3 false false])] := by rfl
   rw [e0] at h1
   rw [e1] at h2
@@ -169,61 +179,41 @@ obtained from a partition of the class's locations into chains — a chain is a 
 location, or consecutive forward ranges each ending where the next starts with the meeting
 ends marked partial (any abutting ranges when the class is a `source` class) — each chain
 replaced by its span with the outer partial markers.  So merged features share their
-grouping text (key and qualifiers under `keysInj`) and abut 3'-to-5', and nothing else is
+grouping text (that is: key and qualifiers, `classKey_inj`) and abut 3'-to-5', and nothing else is
 merged, dropped or altered. -/
 theorem merge_chains_partial (t t' : Table) (hp : Table.plain t = true) (h : repair t = .ok t')
     (k : String) :
     ∃ gs, gs.flatten.Perm (Table.locsOf t k) ∧ ChainsOf (Table.forceOf t k) gs (Table.locsOf t' k) := by
-  have hns := noStale_of_noTopJoin t (noTopJoin_of_plain t hp)
-  have hns' := (noStale_iff t).mp hns
-  rw [repair_eq_spec t hns] at h
-  cases h
+  obtain ⟨hnil, rfl⟩ := repair_ok t t' h
   by_cases hk : k ∈ Table.classKeys t
   · have hidx : Table.memberIdx t k ∈ Table.groups t := List.mem_map.mpr ⟨k, hk, rfl⟩
-    rw [locsOf_specRepair t hns k hk, ← classForce_eq, ← classLocs_memberIdx]
+    rw [locsOf_specRepair t hnil k hk, ← classForce_eq, ← classLocs_memberIdx]
     simp only [classNew]
     split
     · rename_i hlt
-      rcases plain_class t hp _ hidx with ⟨h1, _⟩ | hr
-      · have : 0 < (classP t (Table.memberIdx t k)).length := List.length_pos_iff.mpr (hns' _ hidx).1
-        rw [classN_of_ne_nil (hns' _ hidx).1] at hlt
-        omega
+      rcases plain_class t hp _ hidx with h1 | hr
+      · have := classN_pos t (Table.memberIdx t k); omega
       · exact pushedOf_chains _ _ hr
     · exact ⟨_, by rw [flatten_singletons], chainsOf_singletons _ _⟩
-  · rw [locsOf_specRepair_of_not_mem t hns k hk, locsOf_of_not_mem t k hk]
+  · rw [locsOf_specRepair_of_not_mem t k hk, locsOf_of_not_mem t k hk]
     exact ⟨[], by simp, trivial⟩
 
-/-- FULL STATEMENT (false today, K12C): features that differ in their qualifiers are never
-fused.  `/note="a b"` and `/note="a" /note="b"` print alike under `%v`: -/
-theorem keys_full_refuted :
-    ¬ (∀ f g : Feature, f.props ≠ g.props → f.loc.isJoined = false → g.loc.isJoined = false →
-        repair [f, g] = .ok [f, g]) := by
-  intro h
-  have h1 := h ⟨"gene", ranged 0 3 false true, [["note", "a b"]]⟩ ⟨"gene", ranged 3 6 true false, [["note", "a", "b"]]⟩
-    (by decide) rfl rfl
-  have h2 := congrArg (fun (o : RepairOutcome) => match o with | RepairOutcome.ok t => t.length | _ => 0) h1
-  revert h2
-  decide
+/-- **The grouping text separates exactly the (key, qualifiers) pairs** (fix F20: `%q` quotes
+every string, so neither a space inside a qualifier value nor a bracket or quote can imitate
+a list boundary): features are grouped together iff key and qualifiers are equal.  Within the
+modelled byte domain of `strconv.Quote`, see Gts/Model/Repair.lean. -/
+theorem classKey_inj (f g : Feature) : classKey f = classKey g ↔ (f.key = g.key ∧ f.props = g.props) :=
+  Gts.classKey_inj f g
 
-/-- under `keysInj` the grouping text separates exactly the (key, qualifiers) pairs -/
-theorem keysInj_iff (t : Table) (h : Table.keysInj t = true) (f g : Feature) (hf : f ∈ t) (hg : g ∈ t) :
-    classKey f = classKey g ↔ (f.key = g.key ∧ f.props = g.props) := by
-  constructor
-  · intro e
-    simp only [Table.keysInj, List.all_eq_true, Bool.or_eq_true, bne_iff_ne, ne_eq, Bool.and_eq_true,
-      beq_iff_eq] at h
-    rcases h f hf g hg with h | h
-    · exact absurd e h
-    · exact h
-  · rintro ⟨h1, h2⟩
-    simp [classKey, h1, h2]
+/-- the witness of the former finding K12C (fixed, F20) is now an unchanged table -/
+example : repair [⟨"gene", ranged 0 3 false true, [["note", "a b"]]⟩, ⟨"gene", ranged 3 6 true false, [["note", "a", "b"]]⟩] =
+    .ok [⟨"gene", ranged 0 3 false true, [["note", "a b"]]⟩, ⟨"gene", ranged 3 6 true false, [["note", "a", "b"]]⟩] := by rfl
 
 /-- **Key and qualifiers are never invented or mixed**: every feature of the result carries the
 key and the qualifiers of the input feature at the same (kept) index; only locations change. -/
-theorem result_keys (t t' : Table) (hns : Table.noStale t = true) (h : repair t = .ok t')
+theorem result_keys (t t' : Table) (h : repair t = .ok t')
     (f' : Feature) (hf : f' ∈ t') : ∃ f ∈ t, f.key = f'.key ∧ f.props = f'.props := by
-  rw [repair_eq_spec t hns] at h
-  cases h
+  obtain ⟨_, rfl⟩ := repair_ok t t' h
   obtain ⟨j, hj, hg⟩ := mem_specRepair t f' hf
   have hkey := writeLocs_key t ((Table.groups t).flatMap (classWrites t)) j
   simp only [specGG] at hg
@@ -244,29 +234,25 @@ theorem cover_full_refuted :
     ¬ (∀ (t t' : Table) (k : String) (x : Pos), repair t = .ok t' →
         (x ∈ Table.classDen t' k ↔ x ∈ Table.classDen t k)) := by
   intro h
-  have h1 := h [gene (ranged 0 3 false false), gene (point 3)] [gene (ranged 0 3 false false)] "gene:[]" (3, false)
+  have h1 := h [gene (ranged 0 3 false false), gene (point 3)] [gene (ranged 0 3 false false)] "\"gene\":[]" (3, false)
     (by rfl)
   revert h1
   decide
 
-/-- **Cover preserved**: on well-formed tables without overflow, unless rule K2 fires in the
-push loop of some class, the set of (stranded) residues covered by the features of each
-grouping text is the same before and after — for every location kind, fused complements
-included. -/
-theorem cover_partial (t t' : Table) (hw : Table.wfT t = true) (hns : Table.noStale t = true)
+/-- **Cover preserved**: on well-formed tables, unless rule K2 fires in the push loop of some
+class, the set of (stranded) residues covered by the features of each (key, qualifiers) class
+is the same before and after — for every location kind, fused complements and joins included. -/
+theorem cover_partial (t t' : Table) (hw : Table.wfT t = true)
     (hk2 : Table.k2 t = false) (h : repair t = .ok t') (k : String) (x : Pos) :
     x ∈ Table.classDen t' k ↔ x ∈ Table.classDen t k := by
-  rw [repair_eq_spec t hns] at h
-  cases h
-  exact classDen_specRepair t hw hns hk2 k x
+  obtain ⟨hnil, rfl⟩ := repair_ok t t' h
+  exact classDen_specRepair t hw hnil hk2 k x
 
-/-- non-vacuity: complements, sites and a fusable pair, no K2 -/
+/-- non-vacuity: complements, a join, sites and a fusable pair, no K2 -/
 example : Table.wfT [gene (compl (ranged 0 3 false false)), gene (compl (ranged 5 8 false false)),
-      gene (between 3), gene (ranged 8 9 false true), gene (ranged 9 12 true false)] = true ∧
-    Table.noStale [gene (compl (ranged 0 3 false false)), gene (compl (ranged 5 8 false false)),
-      gene (between 3), gene (ranged 8 9 false true), gene (ranged 9 12 true false)] = true ∧
+      gene (between 3), gene (joined [ranged 8 9 false true, ranged 9 12 true false]), gene (ranged 12 13 false false)] = true ∧
     Table.k2 [gene (compl (ranged 0 3 false false)), gene (compl (ranged 5 8 false false)),
-      gene (between 3), gene (ranged 8 9 false true), gene (ranged 9 12 true false)] = false := by
+      gene (between 3), gene (joined [ranged 8 9 false true, ranged 9 12 true false]), gene (ranged 12 13 false false)] = false := by
   decide
 
 /-! ### (g) restoration -/
@@ -278,12 +264,12 @@ example : Table.wfT [gene (compl (ranged 0 3 false false)), gene (compl (ranged 
 table-unique class.  A complement-strand range cut in two comes back as
 `complement(join(4..6,1..3))`. -/
 theorem restore_full_refuted :
-    ¬ (∀ (s : Seq) (c : Int), 0 < c → c < s.len → Table.keysInj s.feats = true →
+    ¬ (∀ (s : Seq) (c : Int), 0 < c → c < s.len →
         (∀ f ∈ s.feats, Table.classSize s.feats f = 1 ∧ f.key ≠ "source") →
         roundTrip s [c] = .ok s.feats) := by
   intro h
   have h1 := h ⟨[gene (compl (ranged 0 6 false false))], [97, 99, 103, 116, 97, 99]⟩ 3 (by decide) (by decide)
-    (by decide) (by decide)
+    (by decide)
   have h2 := congrArg (fun (o : RepairOutcome) => match o with
     | RepairOutcome.ok t => t.map (fun (f : Feature) => match f.loc with | compl (ranged _ _ _ _) => true | _ => false)
     | _ => []) h1
@@ -293,12 +279,12 @@ theorem restore_full_refuted :
 /-- FULL STATEMENT (false today, K12F): … restores the table, *order included*.  A fragment
 sorts by its own (cut) location, the repaired feature stays where its first fragment was: -/
 theorem restore_order_full_refuted :
-    ¬ (∀ (s : Seq) (cuts : List Int), Table.plain s.feats = true → Table.keysInj s.feats = true →
+    ¬ (∀ (s : Seq) (cuts : List Int), Table.plain s.feats = true →
         (∀ f ∈ s.feats, Table.classSize s.feats f = 1 ∧ f.key ≠ "source") →
         roundTrip s cuts = .ok s.feats) := by
   intro h
   have h1 := h ⟨[⟨"CDS", ranged 1 2 true true, []⟩, gene (ranged 1 3 false false)], [97, 99, 103, 116]⟩ [1, 2]
-    (by decide) (by decide) (by decide)
+    (by decide) (by decide)
   have h2 := congrArg (fun (o : RepairOutcome) => match o with | RepairOutcome.ok t => t.map Feature.key | _ => []) h1
   revert h2
   decide
